@@ -244,6 +244,43 @@ Definition save (r : registry) : list cobj :=
 Definition reload (cfg : config) (known : list bytes) (g : uid) (r : registry) : lres :=
   load cfg known (map (fun o => (g, o)) (save r)).
 
+(** * clientsContainer.Init: the storage's configuration (round 4)
+
+    [config.Clients.Sources] (clients.runtime_sources in the file): which
+    sources of RUNTIME client information are enabled. *)
+Record sources := {
+  src_whois : bool; src_arp : bool; src_rdns : bool; src_dhcp : bool; src_hosts : bool
+}.
+
+(** client.StorageConfig as Init fills it, the fields that matter here: [DHCP]
+    is the DHCP server handed to Init, WHATEVER the switches say (the storage
+    asks it for the MAC of a request's address when it matches persistent
+    clients); [RuntimeSourceDHCP] is the dhcp switch (it only governs whether
+    leases are shown as runtime clients); [EtcHosts] is the hosts container
+    only when the hosts switch is on and a container exists.  The whois, arp
+    and rdns switches are not read by Init at all. *)
+Record storage_conf := {
+  sc_dhcp : addr -> option bytes;       (* MACByIP of StorageConfig.DHCP *)
+  sc_runtime_dhcp : bool;
+  sc_hosts : bool
+}.
+
+Definition init_conf (s : sources) (server : addr -> option bytes) (have_hosts : bool) : storage_conf :=
+  {| sc_dhcp := server; sc_runtime_dhcp := src_dhcp s; sc_hosts := src_hosts s && have_hosts |}.
+
+(** Init: the objects loaded into a storage configured by [init_conf]. *)
+Definition init (cfg : config) (known : list bytes) (s : sources) (server : addr -> option bytes)
+    (have_hosts : bool) (objs : list (uid * cobj)) : lres * storage_conf :=
+  (load cfg known objs, init_conf s server have_hosts).
+
+(** Attribution of a request by an initialised container
+    (filteringConf.ApplyClientFiltering = storage.ApplyClientFiltering). *)
+Definition container_lookup (sc : storage_conf) (r : registry) (id : bytes) (a : addr) : option uid :=
+  acf_find (fst r) (sc_dhcp sc) id a.
+Definition container_acf (sc : storage_conf) (r : registry) (id : bytes) (a : addr) (g : settings)
+    : option settings :=
+  apply_client_filtering (fst r) (sc_dhcp sc) id a g.
+
 (** * OBSERVATION (not a clause of C04): a section without a schedule
 
     DNSFilter.ApplyAdditionalFiltering evaluates
